@@ -348,3 +348,47 @@ case("c17-keep-match-names", "keep", ["C17"], [(CSVF, """        if word.eq("PVA
         } else if word.eq("PVALID") {
             Ok(DerivedProperty::PValid)
         } else if""")], "two comparisons reordered, == instead of eq")
+
+# ------------------------------------------------------------------ round-3 additions: exactness of lookups, representation, accumulators
+_TC = TOOLS + "common.rs"
+case("c12-space-fastpath-row", "break", ["C12"], [(CM, "    let cp = c as u32;\n    SPACE_SEPARATOR", "    let cp = c as u32;\n    if cp < 0x80 {\n        return c == SPACE;\n    }\n    if cp >> 4 == 0x200 {\n        return true;\n    }\n    SPACE_SEPARATOR")], "fast path covers the whole row U+2000..U+200F (U+200B..U+200F are not Zs)", expect_key=["L4|is_space_separator"])
+case("c12-keep-space-fastpath", "keep", ["C12"], [(CM, "    let cp = c as u32;\n    SPACE_SEPARATOR", "    let cp = c as u32;\n    if cp < 0x80 {\n        return c == SPACE;\n    }\n    if cp >> 4 == 0x200 && cp <= 0x200a {\n        return true;\n    }\n    SPACE_SEPARATOR")], "a fast path that repeats the table exactly")
+case("c09-lookup-ascii-fastpath", "break", ["C09"], [(BD, "fn bidi_class_cp(cp: u32) -> BidiClass {\n", "fn bidi_class_cp(cp: u32) -> BidiClass {\n    if cp < 0x80 {\n        return BidiClass::L;\n    }\n")], "ASCII is not all L (digits EN, controls BN, punctuation ON/ES/CS/ET)", expect_key=["lookup|default"])
+case("c09-keep-lookup-letters-fastpath", "keep", ["C09"], [(BD, "fn bidi_class_cp(cp: u32) -> BidiClass {\n", "fn bidi_class_cp(cp: u32) -> BidiClass {\n    if (0x41..=0x5a).contains(&cp) || (0x61..=0x7a).contains(&cp) {\n        return BidiClass::L;\n    }\n")], "ASCII letters are L: the shortcut agrees with the table")
+case("c16-keep-cow-match", "keep", ["C16", "C05", "C04"], [(CM, """    let s = s.into();
+    if unicode_normalization::is_nfc(&s) {
+        Ok(s)
+    } else {
+        Ok(s.nfc().collect::<String>().into())
+    }""", """    match s.into() {
+        Cow::Borrowed(b) => {
+            if unicode_normalization::is_nfc(b) {
+                Ok(Cow::Borrowed(b))
+            } else {
+                Ok(Cow::Owned(b.nfc().collect::<String>()))
+            }
+        }
+        Cow::Owned(o) => {
+            if unicode_normalization::is_nfc(&o) {
+                Ok(Cow::Owned(o))
+            } else {
+                Ok(Cow::Owned(o.nfc().collect::<String>()))
+            }
+        }
+    }""")], "matching on the Cow variant with the same content in both arms")
+case("c15-merge-across-gap", "break", ["C15"], [(_TC, "if **cp - r.end.value() == 1 {", "if **cp - r.end.value() <= 2 {")], "a run is extended across a one-code-point hole", expect_key=["merge-semantics|step"])
+case("c15-merge-no-final-flush", "break", ["C15"], [(_TC, "    add_range(&range, &mut out);\n\n    out", "    out")], "the last run is never emitted", expect_key=["merge-semantics|finish", "flush-on-exit"])
+case("c15-merge-new-run-off-by-one", "break", ["C15"], [(_TC, """                    range = Some(CodepointRange {
+                        start: Codepoint::from_u32(**cp).unwrap(),
+                        end: Codepoint::from_u32(**cp).unwrap(),
+                    });
+                }
+            }
+            None""", """                    range = Some(CodepointRange {
+                        start: Codepoint::from_u32(**cp + 1).unwrap(),
+                        end: Codepoint::from_u32(**cp).unwrap(),
+                    });
+                }
+            }
+            None""")], "a run started after a gap begins one code point late", expect_key=["merge-semantics"])
+case("c15-gap-first-entry", "break", ["C15"], [(TOOLS + "generators/ucd_generator.rs", "                if cp.value() - self.range.end.value() != 0 {", "                if cp.value() - self.range.end.value() > 1 {")], "a one-code-point gap before a single entry is not emitted (pinned inputs have none at U+0000)", expect_key=["gap-semantics|step"])
